@@ -326,6 +326,12 @@ fn observe(sub: &Subject, faulted: &Store) -> Result<(), (String, String)> {
         }
         // whole snapshots: Err or the source
         if let Ok(snaps) = full.get_all_snapshots() {
+            // a successful listing covers every stored snapshot file: one that cannot be read must
+            // make the listing fail, not shrink it
+            let stored = faulted.ids(FileType::Snapshot).len();
+            if snaps.len() != stored {
+                return Err(("listing".into(), format!("the store holds {stored} snapshot files but get_all_snapshots returned {} snapshots without an error", snaps.len())));
+            }
             for s in &snaps {
                 if let Ok(t) = vkit::logical::read_snapshot(&full, s) {
                     match sub.model.get(&s.label) {
